@@ -416,6 +416,7 @@ Proof.
     destruct (ch_cur ch) as [u|]; [|apply QI_apply_err; exact H0].
     destruct (get_msg _ u) as [m|]; [|exact H0].
     destruct (negb (m_has_header m)); [apply QI_apply_err; exact H0|].
+    destruct (_ <? _); [apply QI_apply_err; cbn [fst]; sq|].
     destruct (_ <? _); [|apply QI_finish_publish]; sq.
   - (* LConsumerTurn *) apply QI_consumer_turn; auto.
   - (* LQueueLoop *) cbn [fst]. apply QI_queue_loop_turn; auto.
